@@ -56,6 +56,8 @@ var alphaGeneral = []string{
 	"jal ra, f%d\naddi t1, t1, 1\njal ra, f%d\nj g%d\nf%d:\naddi t0, t0, 5\njalr zero, ra, 0\ng%d:",
 	// duplicated source register
 	"add t3, t0, t0",
+	// a loop-carried dependence whose reader sits below its writer (three iterations)
+	"li t3, 3\nl%d:\nadd t2, t2, t3\naddi t3, t3, -1\nbnez t3, l%d",
 }
 
 var alphaCore = []string{
@@ -128,7 +130,7 @@ var c01Suite = &pxSuite{
 	Programs:   c01Programs,
 	Violates:   func(class string) bool { return class != "ok" && class != "cycle-bound" },
 	Nontrivial: nontrivialGeneral,
-	Rule:       "PX: every program of length <= 2 (quick) / <= 3 (thorough) over the 37-template general alphabet and of length 3 / 4 over the 18-template core alphabet (ALU incl. rd=rs aliases, lw/lb/lh/sw/sb/sh on lines 0 and 64, beq/bne/blt/bge/bltu/j/jal/jalr/ret to `mid`/`end`, two-iteration loop macros, a late-resolving branch fed by a missing load, a subroutine called from two sites, a duplicated source register), fixed epilogue, x 2 initial states (thorough: 4 up to length 2, 2 for length 3, 1 for the length-4 core) x 33 configurations (12 variants, parallelism 1..4); oracle = sequential reference (registers x1..x31, whole memory, no error); non-trivial = distinct programs whose reference trace has a register dependence within two instructions, a taken branch, or more than one memory access (the epilogue stores once)",
+	Rule:       "PX: every program of length <= 2 (quick) / <= 3 (thorough) over the 38-template general alphabet and of length 3 / 4 over the 18-template core alphabet (ALU incl. rd=rs aliases, lw/lb/lh/sw/sb/sh on lines 0 and 64, beq/bne/blt/bge/bltu/j/jal/jalr/ret to `mid`/`end`, two-iteration loop macros, a three-iteration loop whose loop-carried reader sits below its writer, a late-resolving branch fed by a missing load, a subroutine called from two sites, a duplicated source register), fixed epilogue, x 2 initial states (thorough: 4 up to length 2, 2 for length 3, 1 for the length-4 core) x 33 configurations (12 variants, parallelism 1..4); oracle = sequential reference (registers x1..x31, whole memory, no error); non-trivial = distinct programs whose reference trace has a register dependence within two instructions, a taken branch, or more than one memory access (the epilogue stores once)",
 }
 
 func init() {
